@@ -339,6 +339,7 @@ Proof.
   - apply E_queue_send.
   - eapply E_neutral, n_send_sd.
   - destruct (get_inst i w); [apply E_put_inst|apply ext_refl].
+  - apply E_call_soon.
 Qed.
 
 (* every callback leaves the clock alone and arms timers only at or after the current instant *)
